@@ -67,7 +67,11 @@ func configure(g *gen) {
 			{"currentGroupPrefix", "string", "currentGroupPrefix", tStr},
 			{"currentGroupHandlers", "HandlersChain", "currentGroupHandlers", T{"opaque", "List Nat"}}, // handler identities
 			{"handlers", "HandlersChain", "handlers", T{"opaque", "List Nat"}},
-		}},
+			{"noRoute", "HandlersChain", "noRoute", T{"opaque", "List Nat"}},
+			{"noAllowed", "HandlersChain", "noAllowed", T{"opaque", "List Nat"}},
+			{"maxNumCaches", "uint16", "maxNumCaches", tInt},
+			{"cachedRoutes", "*cachedRoutes", "cachedRoutes", T{"opaque", "Option Nat"}}, // nil or the identity of a cache container
+		}, Defaults: map[string]string{"noRoute": "[]", "noAllowed": "[]", "maxNumCaches": "0", "cachedRoutes": "none"}},
 		// route.go (opt-in: elsewhere a *Route is an opaque value of the lookup environment)
 		{Go: "Route", Lean: "Route", OptIn: true, Fields: []FieldSpec{
 			{"name", "string", "name", tStr},
@@ -215,6 +219,26 @@ func configure(g *gen) {
 			{Callee: "$.match", Stmts: []string{"let %t := env.match_ s %1 %2", "s := %t.2"},
 				Values: []string{"%t.1.1", "%t.1.2"}, Ts: []T{{"opaque", "Option ρ"}, {"opaque", "Option π"}}},
 		}})
+	// router.go / rux.go: construction-time configuration.  Options are opaque functions (identities) applied through
+	// the parameter `applyOpt`; `NewCachedRoutes(n)` yields the identity `newCache n` of a fresh container.
+	optT := map[string]T{"[]func(*rux.Router)": {"opaque", "List Nat"}, "func(*rux.Router)": {"opaque", "Nat"}}
+	add(FnSpec{Recv: "Router", Func: "WithOptions", Lean: "Router.WithOptions", Mutates: true, Types: optT,
+		Extra: []string{"(applyOpt : Nat → Router → Router)", "(newCache : Int → Nat)"},
+		Exts: []Ext{
+			{Callee: "opt", Effect: "applyOpt opt $"},
+			{Callee: "NewCachedRoutes", Value: "(some (newCache %1))", T: T{"opaque", "Option Nat"}},
+		}})
+	add(FnSpec{Recv: "Router", Func: "NotFound", Lean: "Router.NotFound"})
+	add(FnSpec{Recv: "Router", Func: "NotAllowed", Lean: "Router.NotAllowed"})
+	add(FnSpec{Recv: "Router", Func: "Handlers", Lean: "Router.Handlers"})
+	for _, n := range []string{"UseEncodedPath", "EnableCaching", "StrictLastSlash", "HandleFallbackRoute", "HandleMethodNotAllowed"} {
+		add(FnSpec{Func: n, Lean: "Opt." + n, MutParams: []string{"r"}, RetExtra: []string{"r"}, RetExtraT: []string{"Router"}})
+	}
+	for _, n := range []string{"InterceptAll", "MaxNumCaches", "CachingWithNum"} {
+		add(FnSpec{Func: n, Lean: "Opt." + n, Inner: true, MutParams: []string{"r"}, RetExtra: []string{"r"}, RetExtraT: []string{"Router"}})
+	}
+	// middleware.go `combineHandlers`: a NEW slice of the exact size, filled by two `copy` calls
+	add(FnSpec{Func: "combineHandlers", Lean: "combineHandlers"})
 	// route.go: what the route cache stores — `copyWithParams` (a copy of the route without the compiled pattern, with a
 	// CLONE of the matched params) and `Params.clone`; the order in which `range` visits the map is the parameter `ord`
 	add(FnSpec{Recv: "Params", Func: "clone", Lean: "Params.clone", Extra: []string{"(ord : GoRt.KV → GoRt.KV)"}, MapOrder: "ord",
@@ -325,6 +349,21 @@ func configure(g *gen) {
 		Exts: []Ext{{Callee: "combineHandlers", Value: "(%1 ++ %2)", T: T{"opaque", "List Nat"}}}})
 	add(FnSpec{Recv: "Router", Func: "Use", Lean: "Router.Use"})
 	add(FnSpec{Recv: "Route", Func: "Use", Lean: "Route.Use", UseStructs: []string{"Route"}})
+	// router.go: the registration entry points.  `appendRoute` (checks, group info, pattern compilation, table insertion —
+	// translated and tied on its own) is the parameter `appendRoute`: it may panic and returns the router and the route as
+	// it left them.  `GET` … `CONNECT`, `Add`, `AddNamed`, `Any` build the route with the generated constructors.
+	arExtra := []string{"(appendRoute : Router → Route → Except Panic (Router × Route))", "(newCache : Int → Nat)"}
+	arExts := []Ext{
+		{Callee: "$.appendRoute", Stmts: []string{"let %t ← appendRoute $ %1", "$ := %t.1", "%1 := %t.2"}, MayPanic: true},
+		{Callee: "NewCachedRoutes", Value: "(some (newCache %1))", T: T{"opaque", "Option Nat"}},
+		{Callee: "anyMethods", Value: "Rux.Facts.anyMethodsB", T: tStrList},
+	}
+	hfT := map[string]T{"rux.HandlerFunc": {"opaque", "Option Nat"}}
+	add(FnSpec{Recv: "Router", Func: "AddRoute", Lean: "Router.AddRoute", UseStructs: []string{"Route"}, Mutates: true,
+		MutParams: []string{"route"}, Extra: arExtra, Exts: arExts, Types: hfT})
+	for _, n := range []string{"Add", "AddNamed", "Any", "GET", "HEAD", "POST", "PUT", "PATCH", "TRACE", "OPTIONS", "DELETE", "CONNECT"} {
+		add(FnSpec{Recv: "Router", Func: n, Lean: "Router." + n, UseStructs: []string{"Route"}, Mutates: true, Extra: arExtra, Exts: arExts, Types: hfT})
+	}
 	// route.go: matchRegex — the compiled regexp is a parameter (what FindAllStringSubmatch answers)
 	add(FnSpec{Recv: "Route", Func: "matchRegex", Lean: "Route.matchRegex", UseStructs: []string{"Route"},
 		Extra: []string{"(findAll : Bytes → List (List Bytes))"},
